@@ -158,7 +158,12 @@ def load_copy(*, stub: bool = True, sym_builtin: bool = True) -> Copy:
         P.BUILTIN = SymKeyDict(P.BUILTIN)
         sc = mods["pest.grammar.scanner"]
         sc.ESCAPES = SymAwareSet(sc.ESCAPES)
+    for hook in COPY_HOOKS:
+        hook(cp)
     return cp
+
+
+COPY_HOOKS: list = []  # canary mutants: functions applied to every freshly loaded copy (harness process only)
 
 
 # ---------------------------------------------------------------------------
